@@ -81,6 +81,7 @@ pub fn generate(seed: u64, g: &GenCtx) -> Scenario {
     let f_share = rng.chance(1, 2);
     let f_drop = rng.chance(1, 2);
     let f_shrink = rng.chance(1, 2);
+    let f_shared_buf = rng.chance(1, 4);
     let strategy = match rng.below(10) {
         0 | 1 => Strategy::Random { quantum: 1 },
         2 => Strategy::Random { quantum: 4 },
@@ -123,7 +124,9 @@ pub fn generate(seed: u64, g: &GenCtx) -> Scenario {
                     intern(g.pick_source(&mut rng), &mut sources)
                 };
                 let len = sources[src].text.len();
-                let placement = if f_place && rng.chance(2, 3) {
+                let placement = if f_shared_buf && rng.chance(3, 4) {
+                    Placement::Shared
+                } else if f_place && rng.chance(2, 3) {
                     if rng.chance(1, 2) {
                         Placement::Slack { extra: rng.range(1, 64) as u16, junk: rng.below(16) as u8 }
                     } else {
@@ -281,6 +284,7 @@ fn op_to_json(op: &Op) -> Json {
                     Placement::Exact => "exact".to_string(),
                     Placement::Slack { extra, junk } => format!("slack:{extra}:{junk}"),
                     Placement::Sub { pre, junk } => format!("sub:{pre}:{junk}"),
+                    Placement::Shared => "shared".to_string(),
                 }),
             );
             let mut k = Json::obj();
@@ -374,6 +378,7 @@ pub fn scenario_from_json(j: &Json) -> Result<Scenario, String> {
                             extra: pa.first().copied().unwrap_or(1) as u16,
                             junk: pa.get(1).copied().unwrap_or(0) as u8,
                         },
+                        "shared" => Placement::Shared,
                         "sub" => Placement::Sub {
                             pre: pa.first().copied().unwrap_or(0) as u8,
                             junk: pa.get(1).copied().unwrap_or(0) as u8,
